@@ -373,13 +373,11 @@ func vUvarint(x uint64) []byte {
 	return buf[:n]
 }
 
-
 func vVarint(x int64) []byte {
 	var buf [binary.MaxVarintLen64]byte
 	n := binary.PutVarint(buf[:], x)
 	return buf[:n]
 }
-
 
 func vCalls(cx *EvalContext) []interface{} {
 	out := make([]interface{}, 0, len(cx.callstack))
@@ -389,3 +387,130 @@ func vCalls(cx *EvalContext) []interface{} {
 	return out
 }
 
+// ---------------------------------------------------------------- extreme immediates
+// vExtremePrograms: a directed, deterministic stream of programs of version v in which every
+// immediate kind takes extreme encodings: 9/10-byte (and overflowing, truncated, non-canonical)
+// varints around 2^63 / 2^64-1 / MinInt64 / MaxInt64 for the signed branch offsets of v13+
+// (including offsets that make pc+size+offset land exactly on and just past MaxInt64), int16
+// offsets +-32767/-32768 for the 2-byte branches, switch/match tables with 255 labels, huge
+// pushint values and pushbytes / constant-block length and count prefixes, byte immediates 255.
+func vExtremePrograms(v uint64) [][]byte {
+	hdr := append(vUvarint(v), 0x20, 0x02, 0x00, 0x01) // intcblock 0 1
+	mk := func(parts ...[]byte) []byte {
+		p := append([]byte{}, hdr...)
+		for _, x := range parts {
+			p = append(p, x...)
+		}
+		return p
+	}
+	one := []byte{0x23} // intc_1
+	ff := func(n int, last ...byte) []byte {
+		b := make([]byte, n)
+		for i := range b {
+			b[i] = 0xff
+		}
+		return append(b, last...)
+	}
+	const maxI = int64(^uint64(0) >> 1)
+	const minI = -maxI - 1
+	var out [][]byte
+
+	// signed varint branch offsets
+	var vints [][]byte
+	for _, x := range []int64{maxI, maxI - 1, maxI - 2, maxI - 5, maxI - 11, maxI - 12, maxI - 13, maxI - 20, maxI - 64,
+		minI, minI + 1, minI + 2, minI + 16, 1 << 62, -(1 << 62), 1 << 32, -(1 << 32), 1 << 31, 65536, -65536,
+		32767, -32768, 127, -128, 64, -65} {
+		vints = append(vints, vVarint(x))
+	}
+	vints = append(vints,
+		ff(9, 0x01), ff(9, 0x00), ff(9, 0x7f), ff(9, 0x02), ff(10, 0x01), ff(8, 0x7f), ff(8, 0x00),
+		[]byte{0x80, 0x80, 0x80, 0x80, 0x80, 0x80, 0x80, 0x80, 0x80, 0x00}, ff(2), ff(9), []byte{0x80})
+	for _, op := range []byte{0x40, 0x41, 0x42, 0x88} {
+		for _, enc := range vints {
+			if op == 0x42 || op == 0x88 {
+				out = append(out, mk([]byte{op}, enc, one))
+			} else {
+				out = append(out, mk(one, []byte{op}, enc, one))
+			}
+		}
+		// offsets chosen so that pc + instrSize + offset is MaxInt64-1 .. MaxInt64+2 (the last two wrap)
+		for d := int64(-1); d <= 2; d++ {
+			pre := 0
+			if op == 0x40 || op == 0x41 {
+				pre = 1
+			}
+			pc := int64(len(hdr) + pre)
+			for _, isz := range []int64{11, 10} {
+				off := maxI - (pc + isz) + d
+				enc := vVarint(off)
+				if pre == 1 {
+					out = append(out, mk(one, []byte{op}, enc, one))
+				} else {
+					out = append(out, mk([]byte{op}, enc, one))
+				}
+			}
+		}
+	}
+	// 2-byte offsets
+	for _, op := range []byte{0x40, 0x41, 0x42, 0x88} {
+		for _, off := range [][]byte{{0x7f, 0xff}, {0x80, 0x00}, {0x80, 0x01}, {0xff, 0xff}, {0x7f, 0xfe}, {0xff, 0xfd}, {0x00, 0x00}} {
+			if op == 0x42 || op == 0x88 {
+				out = append(out, mk([]byte{op}, off, one))
+			} else {
+				out = append(out, mk(one, []byte{op}, off, one))
+			}
+		}
+	}
+	// switch / match tables
+	for _, op := range []byte{0x8d, 0x8e} {
+		for _, cnt := range []int{255, 128, 1} {
+			for _, off := range [][]byte{{0x7f, 0xff}, {0x80, 0x00}, {0xff, 0xff}, {0x00, 0x00}} {
+				tbl := []byte{op, byte(cnt)}
+				for i := 0; i < cnt; i++ {
+					tbl = append(tbl, off...)
+				}
+				out = append(out, mk(one, tbl, one))                   // full table
+				out = append(out, mk(one, tbl[:2+cnt], one))           // table cut short, followed by code
+				out = append(out, mk(one, one, one, tbl[:len(tbl)-1])) // ends inside the table
+			}
+		}
+		out = append(out, mk(one, []byte{op}))
+	}
+	// pushint / pushbytes / constant blocks with extreme varuints
+	var uvs [][]byte
+	for _, x := range []uint64{^uint64(0), 1 << 63, 1<<63 - 1, 1 << 62, 1 << 32, 1<<32 - 1, 65536, 4097, 4096, 255, 128} {
+		uvs = append(uvs, vUvarint(x))
+	}
+	uvs = append(uvs, ff(9, 0x02), ff(10, 0x01), ff(9), []byte{0x80},
+		[]byte{0x80, 0x80, 0x80, 0x80, 0x80, 0x80, 0x80, 0x80, 0x80, 0x00})
+	for _, enc := range uvs {
+		out = append(out, mk([]byte{0x81}, enc, one))             // pushint
+		out = append(out, mk([]byte{0x80}, enc, []byte{1, 2, 3})) // pushbytes, length prefix
+		for _, op := range []byte{0x20, 0x26, 0x82, 0x83} {
+			out = append(out, mk([]byte{op}, enc, []byte{1, 1, 1}))       // count
+			out = append(out, mk([]byte{op, 0x02, 0x01, 0x61}, enc, one)) // second item / its length
+		}
+	}
+	for _, l := range []int{0, 1, 2, 3, 4, 5} { // pushbytes whose length is exactly / just past the rest of the program
+		out = append(out, mk([]byte{0x80, byte(l)}, []byte{1, 2, 3}))
+		out = append(out, mk([]byte{0x26, 0x01, byte(l)}, []byte{1, 2, 3}))
+		out = append(out, mk([]byte{0x82, 0x02, 0x00, byte(l)}, []byte{1, 2, 3}))
+	}
+	// byte immediates at their maximum
+	for _, ins := range [][]byte{
+		{0x23, 0x47, 255, 0x23, 0x47, 255, 0x23, 0x47, 255, 0x23, 0x47, 255, 0x23, 0x47, 255}, // dupn 255 x5
+		{0x46, 255}, {0x23, 0x4b, 255}, {0x23, 0x4e, 255}, {0x23, 0x4f, 255}, {0x23, 0x23, 0x45, 255},
+		{0x8b, 0x80}, {0x8b, 0x7f}, {0x23, 0x8c, 0x80}, {0x23, 0x8c, 0x7f}, {0x8a, 255, 255},
+		{0x88, 0x00, 0x00, 0x8a, 255, 255, 0x89}, {0x34, 255}, {0x23, 0x35, 255}, {0x33, 255, 255}, {0x36, 255, 255},
+		{0x37, 255, 255, 255}, {0x2c, 255}, {0x21, 255}, {0x27, 255}, {0x3a, 255, 255}, {0x3c, 255}, {0x31, 255},
+		{0x32, 255}, {0x80, 0x04, 1, 2, 3, 4, 0x51, 255, 0}, {0x80, 0x04, 1, 2, 3, 4, 0x57, 255, 255},
+		{0x80, 0x04, 1, 2, 3, 4, 0x80, 0x01, 9, 0x5c, 255}, {0xd4, 255}, {0xd4},
+	} {
+		out = append(out, mk(ins, one))
+	}
+	return out
+}
+
+func vLsigArgs() [][]byte {
+	return [][]byte{[]byte("aoeu"), []byte("aoeu"), []byte("aoeu2"), []byte("aoeu3")}
+}
